@@ -259,8 +259,41 @@ fn replay_chain(chain: &[BlockSpec]) -> OState {
     }
     st
 }
-fn script_matches(q: &ScriptSpec, exact: bool, s: &ScriptSpec) -> bool {
-    if exact { q.raw() == s.raw() } else { s.raw().starts_with(&q.raw()) }
+/// Which reading of the query is evaluated: the documented one (`SPEC`) or the two known deviations of
+/// the code (used ONLY to attribute an oracle failure to a known-finding class, never to accept it).
+#[derive(Clone, Copy, PartialEq, Eq)]
+struct Sem {
+    /// prefix mode tests the whole key (script ‖ block number ‖ ..), so the query's tail may run into the numbers
+    overmatch: bool,
+    /// get_cells_capacity: script_len_range end inclusive
+    len_incl: bool,
+}
+const SPEC: Sem = Sem { overmatch: false, len_incl: false };
+const DEVIATIONS: [(Sem, &[&str]); 3] = [
+    (Sem { overmatch: true, len_incl: false }, &["prefix-search-overmatch"]),
+    (Sem { overmatch: false, len_incl: true }, &["capacity-script-len-range-end-inclusive"]),
+    (Sem { overmatch: true, len_incl: true }, &["prefix-search-overmatch", "capacity-script-len-range-end-inclusive"]),
+];
+/// empty = the answer is the documented one; otherwise the classes to report
+fn classify<T: PartialEq>(got: &T, want: &dyn Fn(Sem) -> T, plain: &'static str) -> Vec<&'static str> {
+    if *got == want(SPEC) {
+        return vec![];
+    }
+    for (sem, classes) in DEVIATIONS.iter() {
+        if *got == want(*sem) {
+            return classes.to_vec();
+        }
+    }
+    vec![plain]
+}
+fn script_matches(q: &ScriptSpec, exact: bool, s: &ScriptSpec, key: &[u8], sem: Sem) -> bool {
+    if exact {
+        q.raw() == s.raw()
+    } else if sem.overmatch {
+        key.starts_with(&q.raw())
+    } else {
+        s.raw().starts_with(&q.raw())
+    }
 }
 fn sort_key(s: &ScriptSpec, bn: u64, txi: u32, io: u32, tail: Option<u8>) -> Vec<u8> {
     let mut k = s.raw();
@@ -282,7 +315,7 @@ fn find_sub(h: &[u8], n: &[u8]) -> bool {
     h.windows(n.len()).any(|w| w == n)
 }
 /// the documented meaning of the cell filters ([start, end) ranges)
-fn cell_passes(f: &FilterSpec, lock_search: bool, c: &OCell) -> bool {
+fn cell_passes(f: &FilterSpec, lock_search: bool, c: &OCell, len_incl: bool) -> bool {
     if let Some(fs) = &f.script {
         let other = if lock_search { c.out.type_.as_ref() } else { Some(&c.out.lock) };
         match other {
@@ -297,7 +330,8 @@ fn cell_passes(f: &FilterSpec, lock_search: bool, c: &OCell) -> bool {
     if f.slr.is_some() {
         let other = if lock_search { c.out.type_.as_ref() } else { Some(&c.out.lock) };
         let n = other.map(|s| s.raw().len() as u64).unwrap_or(0);
-        if !in_range(&f.slr, n) {
+        let (a, b) = f.slr.unwrap();
+        if !(a <= n && (n < b || (len_incl && n == b))) {
             return false;
         }
     }
@@ -313,13 +347,14 @@ fn cell_passes(f: &FilterSpec, lock_search: bool, c: &OCell) -> bool {
     }
     in_range(&f.dlr, c.out.data.len() as u64) && in_range(&f.cap, c.out.cap) && in_range(&f.blk, c.bn)
 }
-fn oracle_cells(st: &OState, lock_search: bool, q: &ScriptSpec, exact: bool, f: &FilterSpec, desc: bool) -> Vec<String> {
+fn oracle_cells(st: &OState, lock_search: bool, q: &ScriptSpec, exact: bool, f: &FilterSpec, desc: bool, sem: Sem) -> Vec<String> {
     let mut v: Vec<(Vec<u8>, String)> = vec![];
     for c in st.live.values() {
         let s = if lock_search { Some(&c.out.lock) } else { c.out.type_.as_ref() };
         if let Some(s) = s {
-            if script_matches(q, exact, s) && cell_passes(f, lock_search, c) {
-                v.push((sort_key(s, c.bn, c.txi, c.op.1, None), format!("{}.{}@{}.{}:{}:{}", c.op.0, c.op.1, c.bn, c.txi, c.out.cap, c.out.data.len())));
+            let key = sort_key(s, c.bn, c.txi, c.op.1, None);
+            if script_matches(q, exact, s, &key, sem) && cell_passes(f, lock_search, c, false) {
+                v.push((key, format!("{}.{}@{}.{}:{}:{}", c.op.0, c.op.1, c.bn, c.txi, c.out.cap, c.out.data.len())));
             }
         }
     }
@@ -329,10 +364,11 @@ fn oracle_cells(st: &OState, lock_search: bool, q: &ScriptSpec, exact: bool, f: 
     }
     v.into_iter().map(|x| x.1).collect()
 }
-fn oracle_tx_rows(st: &OState, lock_search: bool, q: &ScriptSpec, exact: bool, fs: &Option<ScriptSpec>, blk: &Option<(u64, u64)>, desc: bool) -> Vec<ORow> {
+fn oracle_tx_rows(st: &OState, lock_search: bool, q: &ScriptSpec, exact: bool, fs: &Option<ScriptSpec>, blk: &Option<(u64, u64)>, desc: bool, sem: Sem) -> Vec<ORow> {
     let mut v: Vec<(Vec<u8>, ORow)> = vec![];
     for r in st.rows.iter() {
-        if r.lock_family != lock_search || !script_matches(q, exact, &r.script) || !in_range(blk, r.bn) {
+        let key = sort_key(&r.script, r.bn, r.txi, r.io, Some(if r.is_input { 0 } else { 1 }));
+        if r.lock_family != lock_search || !script_matches(q, exact, &r.script, &key, sem) || !in_range(blk, r.bn) {
             continue;
         }
         if let Some(fs) = fs {
@@ -342,7 +378,7 @@ fn oracle_tx_rows(st: &OState, lock_search: bool, q: &ScriptSpec, exact: bool, f
                 continue;
             }
         }
-        v.push((sort_key(&r.script, r.bn, r.txi, r.io, Some(if r.is_input { 0 } else { 1 })), r.clone()));
+        v.push((key, r.clone()));
     }
     v.sort();
     if desc {
@@ -503,9 +539,45 @@ impl Sim {
             out.oracle_fail("tip-rpc-neq-indexer", &format!("{:?} vs {:?}", a, b));
         }
         match t {
-            Some((n, h)) => format!("tip {}.{}", n, self.block_id.get(&h).map(|x| x.to_string()).unwrap_or_else(|| "?".into())),
+            Some((n, h)) => format!("tip {}", self.canon_tip(n, &h)),
             None => "tip none".into(),
         }
+    }
+    /// `n.id` for a known block; when NO Header row exists the code decodes whatever row is the greatest:
+    /// `n.?` if only ConsumedOutPoint residue is left (n = that row's block number), `garbage` otherwise
+    fn canon_tip(&self, n: u64, h: &Byte32) -> String {
+        if let Some(id) = self.block_id.get(h) {
+            return format!("{}.{}", n, id);
+        }
+        let d = self.idx().dump();
+        if d.iter().any(|(k, _)| k[0] == 224) {
+            format!("{}.unknown-header", n)
+        } else if d.iter().all(|(k, _)| k[0] == 32) {
+            format!("{}.?", n)
+        } else {
+            "garbage".into()
+        }
+    }
+    fn has_header_rows(&self) -> bool {
+        self.idx().dump().iter().any(|(k, _)| k[0] == 224)
+    }
+    /// None = the tip answer is the chain tip; otherwise the oracle class: the known one only when the
+    /// chain is empty, no Header row is left, only ConsumedOutPoint residue is, and the answer is exactly the
+    /// greatest residue row's number
+    fn tip_class(&self, ans: &str) -> Option<&'static str> {
+        if ans == self.oracle_tip() {
+            return None;
+        }
+        if self.chain.is_empty() {
+            let d = self.idx().dump();
+            let max_c = d.iter().filter(|(k, _)| k[0] == 32).map(|(k, _)| u64::from_be_bytes(k[1..9].try_into().unwrap())).max();
+            if let Some(m) = max_c {
+                if d.iter().all(|(k, _)| k[0] == 32) && ans == format!("tip {}.?", m) {
+                    return Some("tip-garbage-after-rollback-to-empty");
+                }
+            }
+        }
+        Some("tip-neq-chain-tip")
     }
     fn oracle_tip(&self) -> String {
         match self.chain.last() {
@@ -662,8 +734,10 @@ impl Sim {
                 self.chain.push(spec.clone());
                 self.note_prune_floor_after_append(&spec);
                 let ans = self.tip_string(out);
-                if self.oracle_valid && ans != self.oracle_tip() {
-                    out.oracle_fail("tip-neq-chain-tip", &format!("{} vs {}", ans, self.oracle_tip()));
+                if self.oracle_valid {
+                    if let Some(c) = self.tip_class(&ans) {
+                        out.oracle_fail(c, &format!("{} vs {}", ans, self.oracle_tip()));
+                    }
                 }
                 out.count("append");
                 out.op(line, &ans);
@@ -677,6 +751,7 @@ impl Sim {
                     (Some(n), Some(f)) => n > f + 1,
                     (Some(_), None) => true,
                 };
+                assert!(self.has_header_rows() || self.idx().dump().is_empty(), "malformed: rollback on a store without Header rows (the code would decode a residue row as a header)");
                 self.idx().rollback().expect("rollback");
                 let snap = self.snapshots.pop();
                 self.chain.pop();
@@ -685,19 +760,17 @@ impl Sim {
                     out.count("rollback-beyond-retention");
                 }
                 let ans = self.tip_string(out);
-                if self.oracle_valid && self.chain.is_empty() && tip_before.is_some() {
-                    // the first indexed block was rolled back: no Header row is left. `tip()` does not
-                    // test the key family, so any residue row (ConsumedOutPoint) is decoded as a header.
-                    if ans != "tip none" {
-                        out.oracle_fail("tip-garbage-after-rollback-to-empty", &format!("{} after rolling back the only indexed block", ans));
-                    }
-                    self.oracle_valid = false;
+                if self.chain.is_empty() && tip_before.is_some() {
                     out.count("rollback-to-empty");
                 }
                 if self.oracle_valid {
+                    let cls = self.tip_class(&ans);
+                    if let Some(c) = cls {
+                        out.oracle_fail(c, &format!("{} vs {}", ans, self.oracle_tip()));
+                    }
                     if let Some((tip0, rows0)) = snap {
                         let rows1 = self.answer_rows();
-                        if tip0 != ans {
+                        if tip0 != ans && cls != Some("tip-garbage-after-rollback-to-empty") {
                             out.oracle_fail("rollback-tip-not-restored", &format!("{} vs before-append {}", ans, tip0));
                         }
                         if rows0 != rows1 {
@@ -706,15 +779,13 @@ impl Sim {
                             out.oracle_fail("rollback-answers-not-restored", &format!("extra={:?} missing={:?}", da, db));
                         }
                     }
-                    if ans != self.oracle_tip() {
-                        out.oracle_fail("tip-neq-chain-tip", &format!("{} vs {}", ans, self.oracle_tip()));
-                    }
                 }
                 out.count("rollback");
                 out.op(line, &ans);
                 self.check_rows(out, "after-rollback");
             }
             "prune" => {
+                assert!(self.has_header_rows() || self.idx().dump().is_empty(), "malformed: prune on a store without Header rows");
                 if self.idx().tip().expect("tip").is_some() {
                     self.idx().prune().expect("prune");
                     if let Some(b) = self.chain.last() {
@@ -731,8 +802,10 @@ impl Sim {
             }
             "tip" => {
                 let ans = self.tip_string(out);
-                if self.oracle_valid && ans != self.oracle_tip() {
-                    out.oracle_fail("tip-neq-chain-tip", &format!("{} vs {}", ans, self.oracle_tip()));
+                if self.oracle_valid {
+                    if let Some(c) = self.tip_class(&ans) {
+                        out.oracle_fail(c, &format!("{} vs {}", ans, self.oracle_tip()));
+                    }
                 }
                 out.op(line, &ans);
             }
@@ -743,9 +816,11 @@ impl Sim {
                 if t[0] == "live" {
                     let r = self.idx().live_cells_by_script(&q.build(), if lock { KeyPrefix::CellLockScript } else { KeyPrefix::CellTypeScript }).expect("live");
                     let v: Vec<String> = r.iter().map(|op| self.decode_op(op.as_slice())).collect();
-                    let want: Vec<String> = oracle_cells(&st, lock, &q, false, &FilterSpec::default(), false).iter().map(|s| s.split('@').next().unwrap().to_string()).collect();
-                    if self.oracle_valid && v != want {
-                        out.oracle_fail(if overmatch_possible(&st, lock, &q) { "prefix-search-overmatch" } else { "live-neq-chain-filter" }, &format!("{} got={:?} want={:?}", line, v, want));
+                    let want = |sem: Sem| -> Vec<String> { oracle_cells(&st, lock, &q, false, &FilterSpec::default(), false, sem).iter().map(|s| s.split('@').next().unwrap().to_string()).collect() };
+                    if self.oracle_valid {
+                        for c in classify(&v, &want, "live-neq-chain-filter") {
+                            out.oracle_fail(c, &format!("{} got={:?} want={:?}", line, v, want(SPEC)));
+                        }
                     }
                     if !v.is_empty() {
                         self.n_queries_nonempty += 1;
@@ -755,9 +830,11 @@ impl Sim {
                 } else {
                     let r = self.idx().transactions_by_script(&q.build(), if lock { KeyPrefix::TxLockScript } else { KeyPrefix::TxTypeScript }).expect("rawtxs");
                     let v: Vec<String> = r.iter().map(|h| self.tx_id.get(h).map(|x| x.to_string()).unwrap_or_else(|| "?".into())).collect();
-                    let want: Vec<String> = oracle_tx_rows(&st, lock, &q, false, &None, &None, false).iter().map(|r| r.tx.to_string()).collect();
-                    if self.oracle_valid && v != want {
-                        out.oracle_fail(if overmatch_possible(&st, lock, &q) { "prefix-search-overmatch" } else { "rawtxs-neq-chain-filter" }, &format!("{} got={:?} want={:?}", line, v, want));
+                    let want = |sem: Sem| -> Vec<String> { oracle_tx_rows(&st, lock, &q, false, &None, &None, false, sem).iter().map(|r| r.tx.to_string()).collect() };
+                    if self.oracle_valid {
+                        for c in classify(&v, &want, "rawtxs-neq-chain-filter") {
+                            out.oracle_fail(c, &format!("{} got={:?} want={:?}", line, v, want(SPEC)));
+                        }
                     }
                     out.count("rawtxs");
                     out.op(line, &format!("rawtxs {}", if v.is_empty() { "-".into() } else { v.join(",") }));
@@ -793,11 +870,11 @@ impl Sim {
                     cursor = Some(r.last_cursor);
                 }
                 let st = replay_chain(&self.chain);
-                let want = oracle_cells(&st, lock, &q, exact, &f, desc);
+                let want = |sem: Sem| oracle_cells(&st, lock, &q, exact, &f, desc, sem);
                 let got: Vec<String> = pages.iter().flatten().cloned().collect();
                 if self.oracle_valid {
-                    if got != want {
-                        out.oracle_fail(if !exact && overmatch_possible(&st, lock, &q) { "prefix-search-overmatch" } else { "cells-neq-chain-filter" }, &format!("{} got={:?} want={:?}", line, got, want));
+                    for c in classify(&got, &want, "cells-neq-chain-filter") {
+                        out.oracle_fail(c, &format!("{} got={:?} want={:?}", line, got, want(SPEC)));
                     }
                     let n = pages.len();
                     // full pages, then at most one partial page, then the empty page that ends the walk
@@ -860,10 +937,10 @@ impl Sim {
                     cursor = Some(r.last_cursor);
                 }
                 let st = replay_chain(&self.chain);
-                let want: Vec<String> = oracle_tx_rows(&st, lock, &q, exact, &fs, &blk, desc).iter().map(show_tx_row).collect();
+                let want = |sem: Sem| -> Vec<String> { oracle_tx_rows(&st, lock, &q, exact, &fs, &blk, desc, sem).iter().map(show_tx_row).collect() };
                 if self.oracle_valid {
-                    if flat != want {
-                        out.oracle_fail(if !exact && overmatch_possible(&st, lock, &q) { "prefix-search-overmatch" } else { "txs-neq-chain-filter" }, &format!("{} got={:?} want={:?}", line, flat, want));
+                    for c in classify(&flat, &want, "txs-neq-chain-filter") {
+                        out.oracle_fail(c, &format!("{} got={:?} want={:?}", line, flat, want(SPEC)));
                     }
                     let n = pages.len();
                     // full pages, then at most one partial page, then the empty page that ends the walk
@@ -888,33 +965,35 @@ impl Sim {
                     None => "cap none".to_string(),
                     Some(c) => {
                         let bh = Byte32::from_slice(c.block_hash.as_bytes()).unwrap();
-                        format!("cap {} {}.{}", u64::from(c.capacity), u64::from(c.block_number), self.block_id.get(&bh).map(|x| x.to_string()).unwrap_or_else(|| "?".into()))
+                        format!("cap {} {}", u64::from(c.capacity), self.canon_tip(u64::from(c.block_number), &bh))
                     }
                 };
                 if self.oracle_valid {
                     let st = replay_chain(&self.chain);
-                    let sum: u64 = st
-                        .live
-                        .values()
-                        .filter(|c| {
-                            let s = if lock { Some(&c.out.lock) } else { c.out.type_.as_ref() };
-                            s.map(|s| script_matches(&q, exact, s)).unwrap_or(false) && cell_passes(&f, lock, c)
-                        })
-                        .map(|c| c.out.cap)
-                        .sum();
-                    let want = match self.chain.last() {
-                        None => "cap none".to_string(),
-                        Some(b) => format!("cap {} {}.{}", sum, b.number, b.id),
+                    // the tip part is judged like a `tip` answer; the sum by the direct filter
+                    let tip_part = ans.split(' ').nth(2).map(|t| format!("tip {}", t)).unwrap_or_else(|| "tip none".into());
+                    let tip_cls = self.tip_class(&tip_part);
+                    if let Some(c) = tip_cls {
+                        out.oracle_fail(c, &format!("{} got={} chain tip={}", line, ans, self.oracle_tip()));
+                    }
+                    let got_sum: Option<u64> = ans.split(' ').nth(1).and_then(|x| x.parse().ok());
+                    let want = |sem: Sem| -> Option<u64> {
+                        if ans == "cap none" && self.chain.is_empty() {
+                            return None;
+                        }
+                        Some(
+                            st.live
+                                .values()
+                                .filter(|c| {
+                                    let s = if lock { Some(&c.out.lock) } else { c.out.type_.as_ref() };
+                                    s.map(|s| script_matches(&q, exact, s, &sort_key(s, c.bn, c.txi, c.op.1, None), sem)).unwrap_or(false) && cell_passes(&f, lock, c, sem.len_incl)
+                                })
+                                .map(|c| c.out.cap)
+                                .sum(),
+                        )
                     };
-                    if ans != want {
-                        let class = if !exact && overmatch_possible(&st, lock, &q) {
-                            "prefix-search-overmatch"
-                        } else if f.slr.is_some() {
-                            "capacity-script-len-range-end-inclusive"
-                        } else {
-                            "capacity-neq-chain-filter"
-                        };
-                        out.oracle_fail(class, &format!("{} got={} want={}", line, ans, want));
+                    for c in classify(&got_sum, &want, "capacity-neq-chain-filter") {
+                        out.oracle_fail(c, &format!("{} got={} want={:?}", line, ans, want(SPEC)));
                     }
                 }
                 out.count("cap");
@@ -940,15 +1019,6 @@ impl Sim {
     fn may_prune(&self, number: u64) -> bool {
         number % self.interval == 0
     }
-}
-
-/// true iff some stored script of the searched family is a strict prefix (in raw bytes) of the
-/// query script: the only situation in which `key.starts_with(prefix ‖ raw(query))` can be true for
-/// a row of a script that does NOT start with the query (the query's tail then runs into the
-/// big-endian block number / tx index bytes of the key).
-fn overmatch_possible(st: &OState, lock: bool, q: &ScriptSpec) -> bool {
-    let qr = q.raw();
-    st.rows.iter().any(|r| r.lock_family == lock && r.script.raw().len() < qr.len() && qr.starts_with(&r.script.raw()))
 }
 
 fn show_pages(p: &[Vec<String>]) -> String {
@@ -1146,7 +1216,7 @@ fn gen_case(out: &mut Out, rng: &mut Rng, sim: &mut Sim, steps: usize, probe_kno
                 None => sim.chain.len() as u64,
             };
             // the first indexed block (genesis) is never rolled back by a chain that is followed through reorgs
-            let keep_first = if g.probe_known { 0 } else { 1 };
+            let keep_first = if g.probe_known && rng.chance(1, 8) { 0 } else { 1 };
             let k = rng.range(1, 4).min(max_k).min((sim.chain.len() as u64).saturating_sub(keep_first));
             if k > 0 {
                 sim.n_reorg += 1;
@@ -1160,7 +1230,9 @@ fn gen_case(out: &mut Out, rng: &mut Rng, sim: &mut Sim, steps: usize, probe_kno
                 sim.exec(out, "rollback");
             }
         } else if r < 72 {
-            sim.exec(out, "prune");
+            if !sim.chain.is_empty() {
+                sim.exec(out, "prune");
+            }
         } else if r < 78 {
             sim.exec(out, "dump");
         } else {
@@ -1178,7 +1250,8 @@ pub fn run(opts: &Opts) {
     let mut out = Out::new(&opts.out);
     let mut rng = Rng::new(opts.seed);
     let root = crate::node::scratch_dir(&opts.out, "c18");
-    let probe_known = opts.extra.iter().any(|s| s == "probe-known");
+    // the inputs on which the three known deviations show are always generated; `no-probe` leaves them out
+    let probe_known = !opts.extra.iter().any(|s| s == "no-probe");
     let mut sim = Sim::new(root.clone());
     if let Some(p) = &opts.replay {
         for line in read_replay_ops(p) {
@@ -1191,7 +1264,7 @@ pub fn run(opts: &Opts) {
             }
         }
     } else {
-        let (cases, steps) = if opts.thorough() { (2500 * opts.scale, 60) } else { (250 * opts.scale, 45) };
+        let (cases, steps) = if opts.thorough() { (2500 * opts.scale, 60) } else { (600 * opts.scale, 45) };
         for _ in 0..cases {
             gen_case(&mut out, &mut rng, &mut sim, steps as usize, probe_known);
         }
